@@ -563,8 +563,18 @@ func retMayBeNil(ret *ssa.Return) bool {
 	return retMayBeNilExcept(ret, nil)
 }
 
+// retMayBeNilVia: like retMayBeNil, but when the returned value is a phi of the return's own block only the input
+// arriving from predecessor pred is considered (path sensitivity of one step).
+func retMayBeNilVia(ret *ssa.Return, pred *ssa.BasicBlock) bool {
+	return retMayBeNilX(ret, nil, pred)
+}
+
 // retMayBeNilExcept: may the error returned be nil, treating value `nonNil` as known non-nil?
 func retMayBeNilExcept(ret *ssa.Return, nonNil ssa.Value) bool {
+	return retMayBeNilX(ret, nonNil, nil)
+}
+
+func retMayBeNilX(ret *ssa.Return, nonNil ssa.Value, pred *ssa.BasicBlock) bool {
 	fn := ret.Parent()
 	n := len(ret.Results)
 	if n == 0 {
@@ -574,6 +584,9 @@ func retMayBeNilExcept(ret *ssa.Return, nonNil ssa.Value) bool {
 		if rl.in != ret {
 			continue
 		}
+		if pred != nil && rl.to == ret.Block() && rl.b != pred {
+			continue // this phi input does not arrive on the path taken
+		}
 		if isNilConst(rl.v) {
 			return true
 		}
@@ -582,7 +595,7 @@ func retMayBeNilExcept(ret *ssa.Return, nonNil ssa.Value) bool {
 				continue
 			}
 		}
-		if knownNonNil(rl.v, rl.b) {
+		if knownNonNilEdge(rl.v, rl.b, rl.to) {
 			continue
 		}
 		if _, isMI := rl.v.(*ssa.MakeInterface); isMI {
